@@ -262,7 +262,17 @@ def st_update_merge(shape: int, x0: int, x1: int, x2: int, x3: int, y: int) -> b
     a = Structured(p=[x0], q=[x1])
     b = Structured(q=[x2], r=[x3])
     mg = Structured._merge(a, b)
-    return mg._to_dict() == {"p": [x0], "q": [x1, x2], "r": [x3]}
+    if mg._to_dict() != {"p": [x0], "q": [x1, x2], "r": [x3]}:
+        return False
+    # update REPLACES the value of an existing key, whatever structure the old or the new value carries
+    t = Structured(a=(x0, x1), b=Structured(x=x2, y=x3), c=x0)
+    if t._update(a=(y,))._to_dict() != {"a": (y,), "b": {"x": x2, "y": x3}, "c": x0}:
+        return False
+    if t._update(b=Structured(x=y))._to_dict() != {"a": (x0, x1), "b": {"x": y}, "c": x0}:
+        return False
+    if t._update(a=y, c=(x1, x2))._to_dict() != {"a": y, "b": {"x": x2, "y": x3}, "c": (x1, x2)}:
+        return False
+    return t._to_dict() == {"a": (x0, x1), "b": {"x": x2, "y": x3}, "c": x0}
 
 
 # ------------------------------------------------------------------------------------------------ SimpleFormula as a mutable sequence
